@@ -4,7 +4,7 @@
    the current assignment and the activity scores accumulated so far, must pick
    the candidate and the clause of the assignment that follows -- or nothing,
    when nothing follows. *)
-From Resolvo Require Export Cdcl.Decide Cdcl.AnalyzeRun Float.Activity.
+From Resolvo Require Export Cdcl.Decide Cdcl.PropComplete Cdcl.AnalyzeRun Float.Activity.
 
 Inductive devent :=
 | DAssign (l : lit) (reason : N)
@@ -27,42 +27,43 @@ Definition learnt_names (id : N) : list N :=
 (* what the decide call predicted for the next event *)
 Inductive pending := PNone | PNothing | PDec (cand clause : N).
 
-(* (decide calls compared, all equal) *)
-Fixpoint dreplay (evs : list devent) (pa : list lit) (m : amap) (ids : list N) (undoing : bool) (p : pending) (n : N)
-  : N * bool :=
+(* (decide calls compared, all equal, propagation complete at every call) *)
+Fixpoint dreplay (evs : list devent) (pa : list lit) (m : amap) (ids : list N) (undoing : bool) (p : pending) (n : N) (cok : bool)
+  : N * bool * bool :=
   match evs with
-  | [] => (n, true)
+  | [] => (n, true, cok)
   | e :: t =>
     match p, e with
     | PDec cand clause, DAssign l reason =>
-        if lit_eqb l (VSol cand, true) && N.eqb reason clause then dreplay t (l :: pa) m ids false PNone n else (n, false)
-    | PDec _ _, _ => (n, false)
-    | _, DAssign l reason => dreplay t (l :: pa) m ids false PNone n
+        if lit_eqb l (VSol cand, true) && N.eqb reason clause then dreplay t (l :: pa) m ids false PNone n cok else (n, false, cok)
+    | PDec _ _, _ => (n, false, cok)
+    | _, DAssign l reason => dreplay t (l :: pa) m ids false PNone n cok
     | _, DUndoLast =>
-        if undoing then dreplay t (tl pa) m ids true PNone n
+        if undoing then dreplay t (tl pa) m ids true PNone n cok
         else (* a bare undo_last: a conflict analysis starts; its learnt clause is the next one *)
           match ids with
-          | id :: ids' => dreplay t (tl pa) (aconflict add decay m (learnt_names id)) ids' true PNone n
-          | [] => (n, false)
+          | id :: ids' => dreplay t (tl pa) (aconflict add decay m (learnt_names id)) ids' true PNone n cok
+          | [] => (n, false, cok)
           end
-    | _, DUndoUntil lv => dreplay t (if N.eqb lv 0 then [] else pa) m ids true PNone n
-    | _, DOther => dreplay t pa m ids false PNone n
+    | _, DUndoUntil lv => dreplay t (if N.eqb lv 0 then [] else pa) m ids true PNone n cok
+    | _, DOther => dreplay t pa m ids false PNone n cok
     | _, DDecide k =>
         let dbk := firstn (N.to_nat k) db in
         (* hypotheses of decide_legal, evaluated at every call *)
-        if negb (root_first dbk && forallb (req_wf U) dbk && lit_istrue pa (VRoot, true)) then (n, false) else
+        let cok' := cok && prop_complete dbk pa in
+        if negb (root_first dbk && forallb (req_wf U) dbk && lit_istrue pa (VRoot, true)) then (n, false, cok') else
         match decide U (a_ge m) dbk pa with
-        | None => (n, false)                                  (* the model says unreachable!() *)
-        | Some None => dreplay t pa m ids false PNothing (N.succ n)
-        | Some (Some d) => dreplay t pa m ids false (PDec (pd_cand d) (pd_clause d)) (N.succ n)
+        | None => (n, false, cok')                            (* the model says unreachable!() *)
+        | Some None => dreplay t pa m ids false PNothing (N.succ n) cok'
+        | Some (Some d) => dreplay t pa m ids false (PDec (pd_cand d) (pd_clause d)) (N.succ n) cok'
         end
     end
   end.
 
-Definition check_decides (evs : list devent) : N * bool :=
-  dreplay evs [] [] (learnt_ids db 0) false PNone 0.
+Definition check_decides (evs : list devent) : N * bool * bool :=
+  dreplay evs [] [] (learnt_ids db 0) false PNone 0 true.
 
 End Run.
 
-Definition check_decides_default (U : provider) (db : list cl) (evs : list devent) : N * bool :=
+Definition check_decides_default (U : provider) (db : list cl) (evs : list devent) : N * bool * bool :=
   check_decides U f_one f_095 db evs.
